@@ -344,5 +344,19 @@ def run(chk: Check) -> None:
     rule_u2(chk, ci)
     rule_u3(chk, ci)
     rule_u4_u5(chk, ci)
+    # U6: one upload-handler invocation per connection, so the stored bytes are the
+    # first `size` bytes the client sent and not what a later read left behind
+    from .c07 import rule_s2
+    from .common import machine_findings
+
+    chk.rule("U6", "the protocol hands the upload handler the first `size` buffered bytes (= C07.S2) and invokes it at most once per connection over every activation sequence (machine)")
+    machine_findings(chk, "U6", {"double-dispatch", "double-consult"}, "at most one upload-handler invocation", only=lambda v: v.extra == "upload" or (v.kind == "double-consult" and "titan" in v.chain.lower()))
+    before, nob = len(chk.findings), len(chk.obligations)
+    rule_s2(chk)
+    for f in chk.findings[before:]:
+        f.rule = "U6"
+    for o in chk.obligations[nob:]:
+        o["rule"] = f"{chk.prop}.U6"
+    chk.rules.pop("S2", None)
     chk.trusted = ["CPython ast parser", "engine CFG / abstract evaluator / reaching definitions", "POSIX rename atomicity; pathlib.resolve"]
     chk.assumptions = ["an empty token list means no authentication is configured (the property says 'if tokens are configured')", "directories created by mkdir(parents=True) for a later-failing store are not considered"]
